@@ -143,11 +143,41 @@ Definition well_typed (sc : schema) (o : obj) : bool := typed_obj false sc o.
 (* ... and additionally within the ranges the decoder produces, which is what encoding needs *)
 Definition decoded_range (sc : schema) (o : obj) : bool := typed_obj true sc o.
 
-(* The bundled classes (Timestamp, Duration, the wrappers) are ordinary plain-field messages:
-   wf_schema pins their numbers and proto types, this pins the type hints.  Every schema the
-   harness builds is [builtin_classes ++ user classes] and satisfies it. *)
-Definition builtins_plain (sc : schema) : bool :=
-  forallb cdesc_plain (firstn (length builtin_classes) (classes sc)).
+(* Two side conditions on the schema beyond wf_schema, both true of every class table the
+   runtime can build (and of every schema harness/msggen.py prints):
+   - the class table starts with the bundled classes exactly as betterproto defines them
+     (wf_schema pins only their numbers and proto types; a Timestamp whose `seconds` were declared
+     List[int] is not a schema of this library);
+   - the synthetic Entry class of a map field annotates key and value with the same Python types
+     as the Dict[...] hint of the field (wf_schema pins their proto types only; for enum and message
+     values the proto type does not determine the Python class). *)
+Definition has_builtins (sc : schema) : Prop := exists user, classes sc = builtin_classes ++ user.
+
+Definition pyty_eqb (a b : pyty) : bool :=
+  match a, b with
+  | PyInt, PyInt | PyFloat, PyFloat | PyBool, PyBool | PyStr, PyStr | PyBytes, PyBytes
+  | PyDatetime, PyDatetime | PyTimedelta, PyTimedelta => true
+  | PyEnum x, PyEnum y => Nat.eqb x y
+  | PyMsg x, PyMsg y => Nat.eqb x y
+  | _, _ => false
+  end.
+
+Definition entry_hints_agree (sc : schema) (f : fdesc) : bool :=
+  match fhint f with
+  | HDict k v =>
+      match cfields (get_class sc (fentry f)) with
+      | [fk; fv] =>
+          match fhint fk, fhint fv with
+          | HPlain k', HPlain v' => pyty_eqb k' k && pyty_eqb v' v
+          | _, _ => false
+          end
+      | _ => false
+      end
+  | _ => true
+  end.
+
+Definition entries_agree (sc : schema) : bool :=
+  forallb (fun cd => forallb (entry_hints_agree sc) (cfields cd)) (classes sc).
 
 (* struct.pack("<f", struct.unpack("<f", w)) never overflows: the one fact about the float32
    conversions that re-encodability of a decoded float field rests on (checked as a boolean on a
